@@ -17,6 +17,19 @@ Proof.
   apply cinv_run; [apply cinv_init; exact Hnd|exact Hnd].
 Qed.
 
+(* use_is_loading_global (what the blocking render waits on), in every reachable state: true exactly while some unfinished task
+   holds a guard of a boundary whose counter is alive *)
+Theorem C13_global_loading_iff : forall fx p ss,
+  NoDup (map t_id (tasks (fst (init p)))) ->
+  let st := run_state fx (fst (init p)) ss in
+  (global_loading st = true <->
+   exists s ti, is_sus_scope st s = true /\ counter_alive st s = true /\
+                In ti (tasks st) /\ holds s ti = true /\ pendingb st ti = true).
+Proof.
+  intros fx p ss Hnd st. apply global_loading_iff.
+  apply cinv_run; [apply cinv_init; exact Hnd|exact Hnd].
+Qed.
+
 (* is_loading looks at the boundary's own counter and at the enclosing boundaries' counters, nothing else *)
 Theorem C13_is_loading_chain : forall fuel st s,
   is_loading fuel st s = existsb (fun b => Nat.ltb 0 (counter st b)) (chain fuel st s).
